@@ -42,7 +42,7 @@ C02_Recovers == (ck > IDLEHOLD + SLACK) => s.st = "ESTABLISHED"
 \* supporting invariant: in the cooperative phase something is always pending until the session is up
 C02_NotStuck == (ck >= 0 /\ s.st # "ESTABLISHED") => (Rems # {} \/ Closing # {} \/ Connecting # {} \/ OpenCur)
 \* vacuity guard: one tick less than the idle-hold period is NOT enough (must be violated)
-C02_TooStrict == (ck >= IDLEHOLD /\ ck >= 1) => s.st = "ESTABLISHED"
+C02_TooStrict == (ck >= IDLEHOLD /\ ck >= 0) => s.st = "ESTABLISHED"
 CBound == Len(s.conns) <= MAXLIVE /\ ck <= IDLEHOLD + SLACK + WATCH
 CView == <<Clr(s), ck, kad>>
 CReport(c) == PrintT("@V " \o ToJson([clause |-> c, st |-> s.st, ck |-> ck, tm |-> s.tm, conns |-> s.conns, allow |-> s.allow]))
